@@ -344,10 +344,14 @@ class ProductSeq(SymSeq):
             return self._cache[key][1]
         ctx = interp.ctx
         out = []
-        for s in self.seqs:
-            ln = s.length()
+        lens = [s.length() for s in self.seqs]
+        nonunit = [i for i, ln in enumerate(lens) if not (isinstance(ln, int) and ln == 1)]
+        for i, (s, ln) in enumerate(zip(self.seqs, lens)):
             if isinstance(ln, int) and ln == 1:
                 out.append(s.get(interp, 0))
+                continue
+            if len(nonunit) == 1:
+                out.append(s.get(interp, k))  # a single factor with more than one element: position k is its k-th element
                 continue
             idx = ctx.fresh_int("pidx", lo=0)
             ctx.assume(idx < ln)
